@@ -27,6 +27,7 @@ META = {
 META["claim"] += " " + 'Also: two segments cut one byte before the end of a large first message (read-ahead would swallow the followers); exact argument types; the documented on_cont_message mode over all histories of length <= 3; slow legal traffic through an HTTP CONNECT proxy configured with a short http_proxy_timeout.'
 META["claim"] += " " + "Round 4: a re-established connection (reconnect=1) after a loss at a frame boundary, inside a frame, inside the header, inside a fragmented message (also behind a ping): on_reconnect / on_open once and first, then the new connection's history exactly."
 META["claim"] += " " + 'Round 5: callbacks installed as constructor arguments, as attributes after construction, or from inside on_open; a third of the runs with an idle keepalive configured (ping_interval=5000).'
+META["claim"] += " " + 'Rounds 6-7: exception types x kinds of callable; all runs under the app-level ambient conditions (TLS, callback installation mode, trace, descriptor base, bytearray transport, kernel receive timeout); runs with validation off.'
 
 KINDS = ["text", "binary", "frag2", "frag3", "ping", "pong"]
 CBS = ["on_open", "on_message", "on_data", "on_error", "on_ping", "on_pong", "on_close"]
